@@ -186,3 +186,29 @@ func (f *vFs) Open(name string) (fs.File, error) {
 	}
 	return &vOpenFile{info: vInfo{name: vBase(name), dir: true}, ents: ents}, nil
 }
+
+// ---- exported access for the CLI harness (package cli) -----------------------
+
+var vCliFs *vFs
+
+// VFsNew creates the directory double that filesystem.NewNativeFs returns
+// under the engine.
+func VFsNew() {
+	vCliFs = vNewFs()
+	vCliFs.advance = true
+}
+func VFsPut(name, content string, mtime time.Time) { vCliFs.put(name, []byte(content), mtime) }
+func VFsPutNow(name, content string) {
+	vCliFs.tick()
+	vCliFs.put(name, []byte(content), time.Now())
+}
+func VFsWrites() []string { return vCliFs.writes }
+func VFsGet(name string) (string, bool) {
+	d, ok := vCliFs.files[name]
+	if !ok {
+		return "", false
+	}
+	return string(d.data), true
+}
+
+func vNativeFsHook(path string) Filesystem { return vCliFs }
